@@ -36,8 +36,8 @@ def main():
     patch = os.path.join(mdir, "patch.diff")
     demo_src = open(os.path.join(mdir, "demo.py")).read()
     # make the demonstration relocatable: FLODYM_ROOT (default /repo) instead of the scratch path
-    demo_src = re.sub(r"([\"'])/tmp/mut[23456]?/C\d\d\1", '__import__("os").environ.get("FLODYM_ROOT", "/repo")', demo_src)
-    demo_src = re.sub(r"/tmp/mut[23456]?/C\d\d", "/repo", demo_src)
+    demo_src = re.sub(r"([\"'])/tmp/mut[234567]?/C\d\d\1", '__import__("os").environ.get("FLODYM_ROOT", "/repo")', demo_src)
+    demo_src = re.sub(r"/tmp/mut[234567]?/C\d\d", "/repo", demo_src)
     out = os.path.join(VERIF, "seeded", sid)
     os.makedirs(out, exist_ok=True)
     demo = os.path.join(out, "demo.py")
@@ -59,7 +59,8 @@ def main():
     results = {}
     for c in checks:
         t1 = time.time()
-        rc_c, oc = sh(f"./check {c} --tier quick", cwd=VERIF, env=dict(VERIF_REPO=wt))
+        # VERIF_FAILFAST: the check stops after the first work unit with an unknown failure (detection is all that is asked)
+        rc_c, oc = sh(f"./check {c} --tier quick", cwd=VERIF, env=dict(VERIF_REPO=wt, VERIF_FAILFAST=os.environ.get("VERIF_FAILFAST", "1")))
         viol = [l for l in oc.splitlines() if l.startswith("VIOLATION")]
         what = [l.strip() for l in oc.splitlines() if l.strip().startswith("what:")]
         results[c] = dict(exit=rc_c, violations=len(viol), first=what[:2], wall_s=round(time.time() - t1, 1))
@@ -75,7 +76,7 @@ def main():
             repo_tests_failed_with_patch=int(failed.group(1)) if failed else 0,
             how="scratch git worktree of /repo HEAD: demo on clean tree; git apply patch.diff; "
             "/venv/bin/python -m pytest -q -p no:cacheprovider --timeout=900; demo again; "
-            "./check <id> --tier quick with VERIF_REPO=<worktree>; git checkout -- .",
+            "./check <id> --tier quick with VERIF_REPO=<worktree> (VERIF_FAILFAST=1: stops at the first failing work unit); git checkout -- .",
         ),
         checks_run=results,
         valid_seed=ok,
